@@ -68,6 +68,9 @@ def shaped(base, shape):
         return [Sym("el", base, i) for i in range(shape[1])]
     if shape[0] == "dict":
         return {"a": Sym("el", base, "a"), "b": [Sym("el", base, "b0"), Sym("el", base, "b1")]}
+    if shape[0] == "tdict":
+        return {("r", "c"): Sym("el", base, "rc"), "r": {"c": Sym("el", base, "r.c")}, (1, 0): Sym("el", base, "10"),
+                1: [Sym("el", base, "1.0")]}
     raise AssertionError(shape)
 
 
